@@ -97,7 +97,15 @@ def faulty_classes():
 # --------------------------------------------------------------------------
 
 
-def sk_estimator(name, seed=0):
+def sk_estimator(name, seed=0, extra=None):
+    est = _sk_estimator(name, seed)
+    if extra:
+        est.set_params(**extra)
+    return est
+
+
+def _sk_estimator(name, seed=0):
+    from sklearn.ensemble import RandomForestClassifier
     from sklearn.gaussian_process import GaussianProcessRegressor
     from sklearn.linear_model import BayesianRidge, LinearRegression, LogisticRegression, SGDClassifier, SGDRegressor
     from sklearn.naive_bayes import GaussianNB
@@ -108,6 +116,9 @@ def sk_estimator(name, seed=0):
         "lr": lambda: LogisticRegression(random_state=seed),
         "dtc": lambda: DecisionTreeClassifier(random_state=seed, max_depth=3),
         "sgdc": lambda: SGDClassifier(loss="log_loss", random_state=seed, max_iter=50, tol=None),
+        # estimators that carry state of their own from one fit to the next unless the wrapper copies them afresh
+        "rf_warm": lambda: RandomForestClassifier(n_estimators=3, warm_start=True, random_state=seed, max_depth=3),
+        "dtc_rs": lambda: DecisionTreeClassifier(random_state=np.random.RandomState(seed), max_features=1, max_depth=3, splitter="random"),
         "linreg": lambda: LinearRegression(),
         "dtr": lambda: DecisionTreeRegressor(random_state=seed, max_depth=3),
         "sgdr": lambda: SGDRegressor(random_state=seed, max_iter=50, tol=None),
@@ -151,7 +162,7 @@ def build(spec, owned=None):
             p["mixture_model"] = BayesianGaussianMixture(n_components=mm["n"], random_state=mm["seed"])
         return MixtureModelClassifier(**p)
     if k == "skl_clf":
-        est = sk_estimator(spec["est"], spec.get("est_seed", 0))
+        est = sk_estimator(spec["est"], spec.get("est_seed", 0), spec.get("est_params"))
         if spec.get("faulty", True):
             est = F["clf"](est)
         return SklearnClassifier(est, **p)
@@ -190,6 +201,28 @@ def subject_name(spec):
         "skl_normal": "SklearnNormalRegressor",
     }
     return names[k]
+
+
+def reconfig_options(spec):
+    """(path in the spec, set_params key, new value) triples that are legal re-configurations."""
+    k = spec["kind"]
+    if k == "sliding":
+        return [["params.window_size", "window_size", v] for v in (1, 2, 4, 8, None) if v != spec["params"].get("window_size")]
+    if k == "pwc":
+        return [["params.n_neighbors", "n_neighbors", v] for v in (1, 3, None) if v != spec["params"].get("n_neighbors")] + [["params.class_prior", "class_prior", v] for v in (0.0, 1.0) if v != spec["params"].get("class_prior", 0.0)]
+    if k == "skl_clf" and spec["est"] in ("dtc", "dtc_rs", "rf_warm"):
+        return [["est_params.max_depth", "estimator__est__max_depth", v] for v in (1, 2, None)]
+    if k in ("nic",):
+        return [["params.kappa_0", "kappa_0", v] for v in (0.5, 2.0)]
+    return []
+
+
+def apply_reconfig(spec, change):
+    path, _, value = change
+    spec = copy.deepcopy(spec)
+    top, key = path.split(".")
+    spec.setdefault(top, {})[key] = value
+    return spec
 
 
 def is_clf(spec):
@@ -256,7 +289,7 @@ def gen_clf_spec(g: SimRng, kind, classes, allow_cost=True):
             p["class_prior"] = g.pick([0.5, 1.0])
         return {"kind": "mixture", "params": p}
     if kind == "skl_clf":
-        return {"kind": "skl_clf", "est": g.pick(["gnb", "lr", "dtc", "sgdc", "gnb"]), "est_seed": g.randrange(0, 50), "faulty": True, "params": p}
+        return {"kind": "skl_clf", "est": g.pick(["gnb", "lr", "dtc", "sgdc", "gnb", "rf_warm", "dtc_rs"]), "est_seed": g.randrange(0, 50), "faulty": True, "params": p}
     if kind == "sliding":
         p.pop("cost_matrix", None)
         inner = gen_clf_spec(g, g.pick(["pwc", "skl_clf"]), classes, allow_cost=False)
@@ -480,6 +513,9 @@ class LifeCheckBase(Check):
                 cands = [i for i, ds in enumerate(datasets) if len(ds["X"][0]) == cur_d]
                 di = g.pick(cands)
                 ops.append({"op": "partial_fit", "d": di, "fail": bool(can_fail and f.chance(fault_rate))})
+            elif mode == "C13" and r > 0.93 and reconfig_options(spec):
+                # the caller re-configures the living object (set_params is the one legal way to change parameters)
+                ops.append({"op": "set_params", "change": g.pick(reconfig_options(spec))})
             else:
                 ops.append({"op": g.pick(["predict", "predict_proba", "predict"]) if task == "clf" else g.pick(["predict", "predict_std", "sample_y"])})
         return {"engine": "lifesim", "mode": mode, "spec": spec, "classes": classes, "datasets": datasets, "queries": queries, "ops": ops}
@@ -644,6 +680,21 @@ class C13Check(LifeCheckBase):
         aborted = False
         for t, op in enumerate(sc["ops"]):
             name = op["op"]
+            if name == "set_params":
+                try:
+                    est.set_params(**{op["change"][1]: op["change"][2]})
+                except Exception as e:
+                    ctx.notes.append(f"set_params raised {e!r}"[:120])
+                    break
+                spec = apply_reconfig(spec, op["change"])
+                params0 = canon(est.get_params(deep=True))  # the one legal way to change what get_params reports
+                if spec["kind"] == "sliding":
+                    window = deque(window, maxlen=spec["params"].get("window_size"))
+                twin = None  # judged again from the next fit on (a re-configured object must be re-fitted)
+                cur_dim = None
+                ctx.probe("reconfigured")
+                ctx.sim_time += 1
+                continue
             if name in ("fit", "partial_fit"):
                 ds = sc["datasets"][op["d"]]
                 d = len(ds["X"][0])
